@@ -104,6 +104,12 @@ struct Dumper {
 				OS << ",\"cv\":" << R.Val.getInt().getExtValue();
 			}
 		}
+		if (auto *CAT = Ctx.getAsConstantArrayType(E->getType())) {
+			OS << ",\"asz\":" << CAT->getSize().getZExtValue();
+			if (!E->getType()->isIncompleteType())
+				OS << ",\"asb\":" << Ctx.getTypeSizeInChars(E->getType()).getQuantity();
+		}
+		else if (Ctx.getAsVariableArrayType(E->getType())) OS << ",\"vla\":1";
 		SourceLocation B = E->getBeginLoc();
 		if (B.isMacroID()) {
 			llvm::StringRef M = Lexer::getImmediateMacroName(B, SM, Ctx.getLangOpts());
